@@ -1,5 +1,5 @@
 #!/usr/bin/env python3
-"""Re-run ALL 20 checks (quick tier) on the surviving mutants of tools/mutate.py: the battery only runs
+"""Re-run ALL 20 checks (quick tier, one process per mutant: tongocheck -sweep) on the surviving mutants of tools/mutate.py: the battery only runs
 the properties a file is anchored in; a mutant may be caught by a neighbour's rule.
 usage: tools/mutate_recheck.py <mutants.jsonl> <out.jsonl> [checker-binary]   (scratch under /tmp/mutr-*)"""
 import os, sys, json, subprocess, shutil, threading, queue
@@ -38,11 +38,14 @@ def worker(w):
         src[r['line'] - 1] = ln[:len(ln) - len(ln.lstrip())] + r['new']
         open(root + '/repo/' + r['file'], 'w').write('\n'.join(src))
         fired = []
-        for p in PROPS:
-            pr = subprocess.run([BIN, '-prop', p, '-tier', 'quick'], env=env, cwd='/verif', capture_output=True, text=True)
-            if pr.returncode != 0:
-                rules = sorted(set(l.split('rule=')[1].split()[0] for l in (pr.stdout + pr.stderr).split('\n') if l.strip().startswith('rule=') and 'key=' in l))
-                fired.append(p + ':' + ','.join(rules))
+        pr = subprocess.run([BIN, '-sweep', '-tier', 'quick'], env=env, cwd='/verif', capture_output=True, text=True)
+        lines = [l for l in pr.stdout.split('\n') if l.startswith('SWEEP ')]
+        if len(lines) != 20:
+            fired.append('ERR:' + (pr.stderr.strip().split('\n') or ['?'])[-1][:120])
+        for l in lines:
+            parts = l.split(' ', 2)
+            if len(parts) == 3 and parts[2].strip():
+                fired.append(parts[1] + ':' + parts[2].strip())
         shutil.copy('/repo/' + r['file'], root + '/repo/' + r['file'])
         r['fired_all'] = fired
         with lock:
